@@ -230,6 +230,13 @@ func init() {
 					sc.Cfg.GetNilForMissing = nilMissing
 					one(fmt.Sprintf("%s:store[%s]:missing(nil=%v)", ce.Name, u, nilMissing), sc)
 				}
+				{
+					// a Database that keeps the values it is handed gives
+					// them back without an '@context' member of their own
+					sc := cloneScenario(base)
+					sc.Cfg.ValuesWithoutContext = true
+					one(fmt.Sprintf("%s:store[%s]:values-without-context", ce.Name, u), sc)
+				}
 				for _, other := range []string{"Note", "Person", "Collection", "OrderedCollection", "Link", "Tombstone", "Follow", "Like", "Create", "Question"} {
 					var c map[string]interface{}
 					mustRoundTrip(base.Store[u], &c)
